@@ -720,6 +720,7 @@ func execAPI(ops []Op) (out []string) {
 	case o := <-done:
 		return o
 	case <-hangAfter(limit):
+		noteHang()
 		atomic.AddInt32(&c10Hung, 1)
 		return []string{fmt.Sprintf("X timeout => %v", limit)}
 	}
